@@ -1172,6 +1172,10 @@ class StridedInterval:
 
     @property
     def n_values(self):
+        if self.is_empty:
+            return 0
+        if self.is_integer:
+            return 1
         return (StridedInterval._wrapped_cardinality(self.lower_bound, self.upper_bound, self.bits) // self.stride) + 1
 
     #
